@@ -40,6 +40,8 @@ type walkCtx struct {
 	pk     *packages.Package
 	inode  *types.Interface
 	walkFn types.Object
+	walkEq map[types.Object]bool // see walkEquivalents
+	eqLits map[*ast.FuncLit]bool
 }
 
 func (w *walkCtx) isNodePtr(t types.Type) bool { // *S implements INode, S named struct of package js
@@ -144,6 +146,121 @@ type resolver struct {
 	depth   int
 }
 
+// walkEquivalents: function-typed parameters that stand for Walk with the current visitor: every call of the
+// function that declares the parameter passes `func(c INode) { Walk(v, c) }` (or hands on such a parameter of its
+// own) — the callback form of a traversal (forEachChild(n, func(c INode) { Walk(v, c) })).
+func walkEquivalents(pk *packages.Package, walkFn types.Object) (map[types.Object]bool, map[*ast.FuncLit]bool) {
+	info := pk.TypesInfo
+	type cand struct {
+		fn  types.Object
+		idx int
+		obj types.Object
+	}
+	var cands []cand
+	decls := map[types.Object]*ast.FuncDecl{}
+	for _, f := range pk.Syntax {
+		for _, d := range f.Decls {
+			hd, ok := d.(*ast.FuncDecl)
+			if !ok || hd.Recv != nil || hd.Body == nil {
+				continue
+			}
+			decls[info.Defs[hd.Name]] = hd
+			pi := 0
+			for _, fld := range hd.Type.Params.List {
+				for _, nm := range fld.Names {
+					if sig, isSig := info.Defs[nm].Type().Underlying().(*types.Signature); isSig && sig.Params().Len() == 1 && sig.Results().Len() == 0 {
+						cands = append(cands, cand{fn: info.Defs[hd.Name], idx: pi, obj: info.Defs[nm]})
+					}
+					pi++
+				}
+			}
+		}
+	}
+	if len(cands) == 0 {
+		return nil, nil
+	}
+	// call sites per function
+	sites := map[types.Object][]*ast.CallExpr{}
+	for _, f := range pk.Syntax {
+		ast.Inspect(f, func(n ast.Node) bool {
+			if ce, ok := n.(*ast.CallExpr); ok {
+				if id, ok := ast.Unparen(ce.Fun).(*ast.Ident); ok {
+					if o := info.Uses[id]; decls[o] != nil {
+						sites[o] = append(sites[o], ce)
+					}
+				}
+			}
+			return true
+		})
+	}
+	eq := map[types.Object]bool{}
+	isWalkClosure := func(e ast.Expr) bool {
+		switch x := ast.Unparen(e).(type) {
+		case *ast.Ident:
+			return eq[info.Uses[x]]
+		case *ast.FuncLit:
+			if x.Type.Params == nil || len(x.Type.Params.List) != 1 || len(x.Type.Params.List[0].Names) != 1 || len(x.Body.List) != 1 {
+				return false
+			}
+			param := info.Defs[x.Type.Params.List[0].Names[0]]
+			es, ok := x.Body.List[0].(*ast.ExprStmt)
+			if !ok {
+				return false
+			}
+			ce, ok := es.X.(*ast.CallExpr)
+			if !ok {
+				return false
+			}
+			id, ok := ast.Unparen(ce.Fun).(*ast.Ident)
+			if !ok {
+				return false
+			}
+			var arg ast.Expr
+			switch o := info.Uses[id]; {
+			case o == walkFn && len(ce.Args) == 2:
+				arg = ce.Args[1]
+			case eq[o] && len(ce.Args) == 1:
+				arg = ce.Args[0]
+			default:
+				return false
+			}
+			aid, ok := ast.Unparen(arg).(*ast.Ident)
+			return ok && info.Uses[aid] == param
+		}
+		return false
+	}
+	for changed := true; changed; {
+		changed = false
+		for _, c := range cands {
+			if eq[c.obj] || len(sites[c.fn]) == 0 {
+				continue
+			}
+			all := true
+			for _, ce := range sites[c.fn] {
+				if c.idx >= len(ce.Args) || ce.Ellipsis.IsValid() || !isWalkClosure(ce.Args[c.idx]) {
+					all = false
+				}
+			}
+			if all {
+				eq[c.obj] = true
+				changed = true
+			}
+		}
+	}
+	// the closures bound to such parameters: their inner Walk call is accounted for where the parameter is called
+	lits := map[*ast.FuncLit]bool{}
+	for _, c := range cands {
+		if eq[c.obj] {
+			for _, ce := range sites[c.fn] {
+				if fl, ok := ast.Unparen(ce.Args[c.idx]).(*ast.FuncLit); ok {
+					lits[fl] = true
+				}
+			}
+		}
+	}
+	return eq, lits
+}
+
 type localDef struct {
 	path   []string
 	copyOf string
@@ -210,6 +327,9 @@ func (rs *resolver) collect(stmts []ast.Stmt, guards []wguard, out *[]wcall, bad
 	var visitExprCalls func(n ast.Node, g []wguard)
 	visitExprCalls = func(n ast.Node, g []wguard) {
 		ast.Inspect(n, func(m ast.Node) bool {
+			if fl, isLit := m.(*ast.FuncLit); isLit && rs.w.eqLits[fl] {
+				return false
+			}
 			ce, ok := m.(*ast.CallExpr)
 			if !ok {
 				return true
@@ -250,11 +370,16 @@ func (rs *resolver) collect(stmts []ast.Stmt, guards []wguard, out *[]wcall, bad
 				*out = append(*out, sub...)
 				return true
 			}
-			if fobj != rs.w.walkFn || len(ce.Args) != 2 {
+			var arg ast.Expr
+			switch {
+			case fobj == rs.w.walkFn && len(ce.Args) == 2:
+				arg = ast.Unparen(ce.Args[1])
+			case fobj != nil && rs.w.walkEq[fobj] && len(ce.Args) == 1:
+				arg = ast.Unparen(ce.Args[0])
+			default:
 				return true
 			}
 			wc := wcall{call: ce, guards: append([]wguard{}, g...)}
-			arg := ast.Unparen(ce.Args[1])
 			if u, ok := arg.(*ast.UnaryExpr); ok && u.Op == token.AND {
 				wc.addr = true
 			}
@@ -382,6 +507,7 @@ func runWalk(r *core.Run) {
 		return
 	}
 	w := &walkCtx{r: r, pk: pk, inode: inodeObj.Type().Underlying().(*types.Interface), walkFn: pk.Types.Scope().Lookup("Walk")}
+	w.walkEq, w.eqLits = walkEquivalents(pk, w.walkFn)
 	// helpers: package-level functions of js (other than Walk) whose body calls Walk or another helper
 	helpers := map[types.Object]*ast.FuncDecl{}
 	for changed := true; changed; {
@@ -401,7 +527,7 @@ func runWalk(r *core.Run) {
 					if ce, ok := n.(*ast.CallExpr); ok {
 						if id, ok := ast.Unparen(ce.Fun).(*ast.Ident); ok {
 							o := pk.TypesInfo.Uses[id]
-							if o == w.walkFn {
+							if o == w.walkFn || (o != nil && w.walkEq[o]) {
 								calls = true
 							} else if _, isH := helpers[o]; isH {
 								calls = true
@@ -588,7 +714,7 @@ func runWalk(r *core.Run) {
 			r.Unknown("arm *"+name+" idiom", cc.Pos(), b)
 		}
 		for _, c := range calls {
-			ckey := fmt.Sprintf("arm *%s Walk(%s)", name, types.ExprString(c.call.Args[1]))
+			ckey := fmt.Sprintf("arm *%s Walk(%s)", name, types.ExprString(c.call.Args[len(c.call.Args)-1]))
 			if !c.ok {
 				r.Fail(ckey+" rooted", c.call.Pos(), "Walk is called on a value that is not a field path of the node being walked: something outside the tree may be visited ("+c.why+")")
 				continue
@@ -725,18 +851,72 @@ func runWalkOrder(r *core.Run) {
 		return
 	}
 	vParam, nParam := fn.Params[0], fn.Params[1]
-	// walk helpers: module functions (other than Walk) that call Walk, directly or through other helpers
+	var jsFuncs []*ssa.Function
+	for _, f := range allModuleFuncs(r) {
+		if fnPkg(f) != nil && core.RelPkg(fnPkg(f)) == "js" {
+			jsFuncs = append(jsFuncs, f)
+		}
+	}
+	// static call sites per function
+	sites := map[*ssa.Function][]*ssa.Call{}
+	for _, f := range jsFuncs {
+		for _, b := range f.Blocks {
+			for _, in := range b.Instrs {
+				if c, ok := in.(*ssa.Call); ok {
+					if g := c.Call.StaticCallee(); g != nil {
+						sites[g] = append(sites[g], c)
+					}
+				}
+			}
+		}
+	}
+	// walk helpers: functions of js (other than Walk, closures included) that descend: they call Walk, another helper,
+	// or a callback parameter that every caller binds to a helper closure (forEachChild(n, func(c INode) { Walk(v, c) }))
 	helpers := map[*ssa.Function]bool{}
+	cbParam := map[*ssa.Parameter]bool{}
+	isHelperValue := func(v ssa.Value) bool {
+		switch x := v.(type) {
+		case *ssa.MakeClosure:
+			g, _ := x.Fn.(*ssa.Function)
+			return g != nil && helpers[g]
+		case *ssa.Function:
+			return helpers[x]
+		case *ssa.Parameter:
+			return cbParam[x]
+		}
+		return false
+	}
 	for changed := true; changed; {
 		changed = false
-		for _, f := range allModuleFuncs(r) {
-			if f == fn || helpers[f] || core.RelPkg(fnPkg(f)) != "js" || f.Signature.Recv() != nil {
+		for _, f := range jsFuncs {
+			if f == fn || f.Signature.Recv() != nil {
+				continue
+			}
+			// callback parameters
+			for pi, p := range f.Params {
+				if _, isSig := p.Type().Underlying().(*types.Signature); !isSig || cbParam[p] || len(sites[f]) == 0 {
+					continue
+				}
+				all := true
+				for _, c := range sites[f] {
+					if pi >= len(c.Call.Args) || !isHelperValue(c.Call.Args[pi]) {
+						all = false
+					}
+				}
+				if all {
+					cbParam[p] = true
+					changed = true
+				}
+			}
+			if helpers[f] {
 				continue
 			}
 			for _, b := range f.Blocks {
 				for _, in := range b.Instrs {
-					if c, ok := in.(*ssa.Call); ok {
-						if g := c.Call.StaticCallee(); g != nil && (g == fn || helpers[g]) && !helpers[f] {
+					if c, ok := in.(*ssa.Call); ok && !helpers[f] {
+						g := c.Call.StaticCallee()
+						p, _ := c.Call.Value.(*ssa.Parameter)
+						if (g != nil && (g == fn || helpers[g])) || (p != nil && cbParam[p]) {
 							helpers[f] = true
 							changed = true
 						}
@@ -745,6 +925,9 @@ func runWalkOrder(r *core.Run) {
 			}
 		}
 	}
+	// The visitor variable may live in a cell (it is reassigned and captured by a closure): a load of the cell stands
+	// for the value of the one store that reaches it.
+	resolve := func(x ssa.Value) ssa.Value { return resolveCell(x, 0) }
 	var enters, exits []ssa.CallInstruction
 	var recs []*ssa.Call // calls in Walk that descend: Walk itself or a walk helper
 	total := 0
@@ -769,6 +952,33 @@ func runWalkOrder(r *core.Run) {
 			}
 		}
 	}
+	// closureVisitor: the visitor a helper closure descends with, as a value of the function that creates the closure
+	// (the binding of the free variable it reads the visitor from), or nil.
+	closureVisitor := func(mc *ssa.MakeClosure, at ssa.Instruction) ssa.Value {
+		g, _ := mc.Fn.(*ssa.Function)
+		if g == nil {
+			return nil
+		}
+		var out ssa.Value
+		for i, fv := range g.FreeVars {
+			if i >= len(mc.Bindings) {
+				break
+			}
+			if types.Identical(fv.Type(), vParam.Type()) {
+				out = resolve(mc.Bindings[i])
+			} else if pt, ok := fv.Type().Underlying().(*types.Pointer); ok && types.Identical(pt.Elem(), vParam.Type()) {
+				if cell, isAlloc := mc.Bindings[i].(*ssa.Alloc); isAlloc {
+					// the value the cell holds when the closure is handed over (and the closure is used nowhere else)
+					if refs := mc.Referrers(); refs != nil && len(*refs) == 1 {
+						if st := reachingStore(cell, at); st != nil {
+							out = resolve(st.Val)
+						}
+					}
+				}
+			}
+		}
+		return out
+	}
 	// inside helpers: no Enter/Exit, and every descent passes on the visitor the helper was given
 	for h := range helpers {
 		var vis ssa.Value
@@ -776,6 +986,34 @@ func runWalkOrder(r *core.Run) {
 			if types.Identical(p.Type(), vParam.Type()) {
 				vis = p
 			}
+		}
+		isVis := func(a ssa.Value) bool {
+			a = resolve(a)
+			if vis != nil && a == vis {
+				return true
+			}
+			// a closure reads the visitor from its free variable (by value, or through the captured cell — which the
+			// closure itself must not assign)
+			switch x := a.(type) {
+			case *ssa.FreeVar:
+				return types.Identical(x.Type(), vParam.Type())
+			case *ssa.UnOp:
+				if fv, ok := x.X.(*ssa.FreeVar); ok && x.Op == token.MUL {
+					if refs := fv.Referrers(); refs != nil {
+						for _, u := range *refs {
+							if st, isSt := u.(*ssa.Store); isSt && st.Addr == ssa.Value(fv) {
+								return false
+							}
+						}
+					}
+					pt, ok := fv.Type().Underlying().(*types.Pointer)
+					return ok && types.Identical(pt.Elem(), vParam.Type())
+				}
+			case *ssa.MakeClosure:
+				v := closureVisitor(x, nil)
+				return v != nil && vis != nil && v == vis
+			}
+			return false
 		}
 		for _, b := range h.Blocks {
 			for _, in := range b.Instrs {
@@ -787,13 +1025,16 @@ func runWalkOrder(r *core.Run) {
 				if cc.IsInvoke() && (cc.Method.Name() == "Enter" || cc.Method.Name() == "Exit") {
 					r.Fail("Enter/Exit only in Walk", in.Pos(), fmt.Sprintf("%s calls %s: Enter and Exit must be issued once per node by Walk itself", fnLabel(h), cc.Method.Name()))
 				}
+				if p, isP := cc.Value.(*ssa.Parameter); isP && cbParam[p] {
+					total++ // a descent through the callback: the visitor is the one bound where the callback was made
+				}
 				if g := cc.StaticCallee(); g != nil && (g == fn || helpers[g]) {
 					if g == fn {
 						total++
 					}
 					passes := false
 					for _, a := range cc.Args {
-						if vis != nil && a == vis {
+						if isVis(a) {
 							passes = true
 						}
 					}
@@ -811,7 +1052,7 @@ func runWalkOrder(r *core.Run) {
 	enter := enters[0]
 	ev, _ := enter.(ssa.Value)
 	ec := enter.Common()
-	r.Check(ec.Value == vParam && len(ec.Args) == 1 && ec.Args[0] == nParam, "Enter(v, n)", enter.Pos(), "", "Enter is not called as v.Enter(n) on Walk's own parameters")
+	r.Check(resolve(ec.Value) == ssa.Value(vParam) && len(ec.Args) == 1 && ec.Args[0] == nParam, "Enter(v, n)", enter.Pos(), "", "Enter is not called as v.Enter(n) on Walk's own parameters")
 	// nil node test dominates Enter: Enter's block is reached only through the false edge of n == nil
 	nilTested := false
 	for _, b := range fn.Blocks {
@@ -828,7 +1069,7 @@ func runWalkOrder(r *core.Run) {
 	var nonNil *ssa.BasicBlock
 	for _, b := range fn.Blocks {
 		if iff, ok := b.Instrs[len(b.Instrs)-1].(*ssa.If); ok {
-			if bo, ok := iff.Cond.(*ssa.BinOp); ok && bo.X == ev {
+			if bo, ok := iff.Cond.(*ssa.BinOp); ok && resolve(bo.X) == ev {
 				if c, ok := bo.Y.(*ssa.Const); ok && c.IsNil() {
 					if bo.Op == token.EQL {
 						nonNil = b.Succs[1]
@@ -855,7 +1096,7 @@ func runWalkOrder(r *core.Run) {
 		_, isDefer := ex.(*ssa.Defer)
 		xc := ex.Common()
 		r.Check(isDefer, "Exit is deferred", ex.Pos(), "", "Exit is called directly instead of deferred: it would not run after all children on every path")
-		r.Check(xc.Value == ev && len(xc.Args) == 1 && xc.Args[0] == nParam, "Exit(v', n)", ex.Pos(), "", "Exit is not called on the visitor returned by Enter with the node n")
+		r.Check(resolve(xc.Value) == ev && len(xc.Args) == 1 && xc.Args[0] == nParam, "Exit(v', n)", ex.Pos(), "", "Exit is not called on the visitor returned by Enter with the node n")
 		r.Check(nonNil.Dominates(ex.Block()), "Exit only after non-nil Enter", ex.Pos(), "", "Exit may be registered although Enter returned nil")
 		// deferred once: its block is not in a loop (no path from block back to itself)
 		r.Check(!inCycle(ex.Block()), "Exit registered once", ex.Pos(), "", "the defer is inside a loop")
@@ -873,7 +1114,10 @@ func runWalkOrder(r *core.Run) {
 		}
 		usesEv := false
 		for _, a := range c.Call.Args {
-			if a == ev {
+			if resolve(a) == ev {
+				usesEv = true
+			}
+			if mc, ok := a.(*ssa.MakeClosure); ok && isHelperValue(mc) && closureVisitor(mc, c) == ev {
 				usesEv = true
 			}
 		}
@@ -885,6 +1129,107 @@ func runWalkOrder(r *core.Run) {
 	if bad == 0 {
 		r.OK("children after Enter with returned visitor", fn.Pos(), fmt.Sprintf("%d recursive calls", len(recs)))
 	}
+}
+
+// resolveCell: a load of a local cell stands for the value of the one store that reaches the load.
+func resolveCell(x ssa.Value, depth int) ssa.Value {
+	if depth > 4 {
+		return x
+	}
+	if u, ok := x.(*ssa.UnOp); ok && u.Op == token.MUL {
+		if cell, isAlloc := u.X.(*ssa.Alloc); isAlloc {
+			if st := reachingStore(cell, u); st != nil {
+				return resolveCell(st.Val, depth+1)
+			}
+		}
+	}
+	return x
+}
+
+// reachingStore: the store to the local cell whose value instruction `at` sees on every path: the latest store
+// that dominates `at`, provided no other store can reach `at` without passing it. The cell must only be loaded,
+// stored to and captured by closures that do not assign it.
+func reachingStore(cell *ssa.Alloc, at ssa.Instruction) *ssa.Store {
+	if at == nil || cell.Referrers() == nil {
+		return nil
+	}
+	var stores []*ssa.Store
+	for _, u := range *cell.Referrers() {
+		switch x := u.(type) {
+		case *ssa.Store:
+			if x.Addr != ssa.Value(cell) {
+				return nil // the address itself is stored
+			}
+			stores = append(stores, x)
+		case *ssa.UnOp, *ssa.DebugRef:
+		case *ssa.MakeClosure:
+			g, _ := x.Fn.(*ssa.Function)
+			if g == nil {
+				return nil
+			}
+			for i, b := range x.Bindings {
+				if b == ssa.Value(cell) && i < len(g.FreeVars) {
+					if refs := g.FreeVars[i].Referrers(); refs != nil {
+						for _, fu := range *refs {
+							if ld, isLoad := fu.(*ssa.UnOp); !isLoad || ld.Op != token.MUL {
+								return nil // the closure assigns the cell or hands it on
+							}
+						}
+					}
+				}
+			}
+		default:
+			return nil
+		}
+	}
+	before := func(a, b ssa.Instruction) bool { // a strictly dominates-or-precedes b
+		if a.Block() == b.Block() {
+			return instrIndex(a) < instrIndex(b)
+		}
+		return a.Block().Dominates(b.Block())
+	}
+	var best *ssa.Store
+	for _, s := range stores {
+		if before(s, at) && (best == nil || before(best, s)) {
+			best = s
+		}
+	}
+	if best == nil {
+		return nil
+	}
+	// no other store may reach `at` after best
+	for _, s := range stores {
+		if s == best || before(s, best) {
+			continue
+		}
+		if s.Block() == at.Block() && instrIndex(s) > instrIndex(at) && !inCycle(at.Block()) {
+			continue
+		}
+		if blockReaches(s.Block(), at.Block()) {
+			return nil
+		}
+	}
+	return best
+}
+
+func blockReaches(from, to *ssa.BasicBlock) bool {
+	seen := map[*ssa.BasicBlock]bool{}
+	var dfs func(b *ssa.BasicBlock) bool
+	dfs = func(b *ssa.BasicBlock) bool {
+		for _, s := range b.Succs {
+			if s == to {
+				return true
+			}
+			if !seen[s] {
+				seen[s] = true
+				if dfs(s) {
+					return true
+				}
+			}
+		}
+		return false
+	}
+	return from == to || dfs(from)
 }
 
 func blockOnlyReturns(b *ssa.BasicBlock) bool {
